@@ -193,6 +193,7 @@ var shortPkgs = map[string]string{
 	"redigo":       "github.com/gomodule/redigo/redis",
 	"list":         "container/list",
 	"codes":        repoMod + "/pkg/codes",
+	"mem":          repoMod + "/persistence/subscription/mem",
 }
 
 func resolveShort(q string) string {
